@@ -11,7 +11,9 @@ STYLES = ["mixed", "walk", "decimal", "mixed", "walk"]
 DEGENERATE = ["flat", "up", "down", "zero_vol", "mixed", "inside", "repeat", "inside_then_walk",
               "flat_then_walk", "zerovol_then_walk"]
 ZEROISH = ["flat_then_walk", "zerovol_then_walk", "mixed", "walk"]
-TFS = {"S": ["S5", "S10", "S30"], "T": ["T1", "T5", "T15"], "H": ["H1", "H4"], "D": ["D1", "D2"]}
+# the usual ones and some that do not divide the hour / the day (their grid is anchored at the epoch only)
+TFS = {"S": ["S5", "S10", "S30", "S45"], "T": ["T1", "T5", "T15", "T7", "T45"], "H": ["H1", "H4", "H5"],
+       "D": ["D1", "D2"]}
 
 
 def prog_for(pre, chunks):
@@ -367,7 +369,8 @@ def decorate(rng, scs):
         if "form" not in sc or sc.get("form") == "candle":
             if rng.random() < 0.35:
                 sc["form"] = rng.choice(FORMS)
-            elif rng.random() < 0.08 and not sc.get("tz") and not sc.get("base"):
+            elif (rng.random() < (0.15 if any(c.timeframe for c in sc["inds"]) else 0.05) and not sc.get("tz")
+                  and not sc.get("base")):
                 # timezone-aware timestamps with an offset that is not a multiple of most timeframes
                 sc["form"] = "aware:" + str(rng.choice([330, -300, 60, 345, -210]))
         mem = sc["inds"] + sc.get("late", [])
